@@ -53,8 +53,10 @@ package sessiontracker
 //@   ensures[okall] result == nil ==> (forall i int :: old(len(out)) <= i && i < len(out) ==> Rendered(i, o.login.Source, old(o.cached[i - old(len(out))])))
 //@   ensures[err] result != nil ==> wfailed && len(out) >= old(len(out)) && len(out) < old(len(out)) + old(len(o.cached)) && o.cached == old(o.cached)
 //@   ensures[errall] result != nil ==> (forall i int :: old(len(out)) <= i && i < len(out) ==> Rendered(i, o.login.Source, old(o.cached[i - old(len(out))])))
+//@   ensures[nofail] result == nil ==> wfailed == old(wfailed)
 //@   ensures[prefix] outprefix_kept()
 //@   loop writeAndClearCache#1 invariant[idx] 0 - 1 <= rangeindex && rangeindex < len(o.cached) && len(out) == old(len(out)) + rangeindex + 1
+//@   loop writeAndClearCache#1 invariant[nofail] wfailed == old(wfailed)
 //@   loop writeAndClearCache#1 invariant[pre] o.login.Source != nil && (forall j int :: 0 <= j && j < len(o.cached) ==> o.cached[j] != nil)
 //@   loop writeAndClearCache#1 invariant[done] forall i int :: old(len(out)) <= i && i < len(out) ==> Rendered(i, o.login.Source, o.cached[i - old(len(out))])
 //@   loop writeAndClearCache#1 invariant[frame] kept("F!sessiontracker.user!*") && kept_objs("F!auditevent.AuditEvent!*") && kept_objs("M!*") && kept("F!aucoalesce.Event!*") && kept("S!*") && outprefix_kept()
@@ -105,6 +107,7 @@ package sessiontracker
 //@   ensures[inv] result == nil ==> TrackerInv(o)
 //@   ensures[invalid] !ValidRUL(rul) ==> result != nil && len(out) == old(len(out)) && kept_objs_old("F!*") && kept_old("M!*")
 //@   ensures[err] result != nil ==> !ValidRUL(rul) || wfailed
+//@   ensures[werr] wfailed && !old(wfailed) ==> result != nil
 //@   ensures[c01] forall i int :: old(len(out)) <= i && i < len(out) ==> out[i].by == rul.Source && out[i].Type == "UserAction"
 //@   |   && g_opened[out[i].Metadata.AuditID] == rul.PID
 //@   ensures[bind] result == nil ==> (forall sid string :: Matched(o, rul, sid) && (forall t string :: Matched(o, rul, t) ==> t == sid) ==>
@@ -113,6 +116,7 @@ package sessiontracker
 //@   |   && old(SMap(o)[sid]).hasRUL && old(SMap(o)[sid]).login == rul && len(old(SMap(o)[sid]).cached) == 0
 //@   |   && len(out) == old(len(out)) + old(len(SMap(o)[sid].cached))
 //@   |   && (forall i int :: old(len(out)) <= i && i < len(out) ==> Rendered(i, rul.Source, old(SMap(o)[sid].cached[i - old(len(out))]))))
+//@   ensures[bindkeep] forall sid string :: Matched(o, rul, sid) ==> kept_objs_old("M!map<int>common.RemoteUserLogin!*")
 //@   ensures[park] result == nil && (forall sid string :: !Matched(o, rul, sid)) ==> len(out) == old(len(out)) && has(PMap(o), rul.PID) && PMap(o)[rul.PID] == rul
 //@   |   && kept_old("F!sessiontracker.user!*") && kept_old("M!map<string;^sessiontracker.user>!*")
 //@   ensures[prefix] outprefix_kept()
@@ -158,6 +162,7 @@ package sessiontracker
 //@   |          out[i].by == old(SMap(o)[event.Session].login.Source) && old(SMap(o)[event.Session].login.PID) == g_opened[event.Session],
 //@   |          out[i].by == old(PMap(o)[atoival(event.Process.PID)].Source) && old(PMap(o)[atoival(event.Process.PID)].PID) == g_opened[event.Session])
 //@   ensures[err] result != nil ==> wfailed || (event.Type == auparse.AUDIT_LOGIN && !atoiok(event.Process.PID))
+//@   ensures[werr] wfailed && !old(wfailed) ==> result != nil
 //@   ensures[causal] old(Causal(o)) ==> (result == nil ==> Causal(o)) && (forall i int :: old(len(out)) <= i && i < len(out) ==> After(i))
 //@   ensures[prefix] outprefix_kept()
 //@   assert_at Write[render] EvIs(e, u.login.Source, event) && g_evsrc[e] == event && g_evby[e] == u.login.Source
